@@ -953,7 +953,15 @@ func (c *c15) lookupsByID() {
 	nLookups := 0
 	for _, name := range []string{"plainGenomeReader.Read", "readPlainNetworkNode", "readPlainConnectionGene",
 		"yamlGenomeReader.Read", "readNNode", "readGene", "readMIMOControlGene"} {
-		fn := p.Func(PkgG, name)
+		fn := p.FuncOpt(PkgG, name)
+		if fn == nil {
+			if _, isYamlRecord := c15YamlRecordType[name]; !isYamlRecord {
+				fn = p.Func(PkgG, name) // anchor missing
+			}
+			// a YAML record helper written out in yamlGenomeReader.Read: its lookups are lookups of Read now (scanned
+			// above; the floor below still counts them); whether Read restores the record at all is C15.2's question
+			continue
+		}
 		r.Fn(FuncName(fn))
 		var bad []string
 		var badPath []string
